@@ -870,3 +870,157 @@ PLANS["C12"] = dict(
     assumptions=["ignore_files::from_origin / from_environment return the discovered files with the applies_in / applies_to tags the model's provenance classes stand for (validated on the fixture)",
                  "clap parsing and Args::normalise are exercised for real (hook H1), modelled only as the --ignore-nothing expansion"],
 )
+
+# ------------------------------------------------------------------------------------------------
+# C08 quit
+
+def quit_cases(seed, n):
+    r = random.Random(seed * 53 + 8)
+    fixed = [
+        "q_run g:15:100 50 I~n:start", "q_exit g:15:100 51 S30~n:start/I~n:start/I~", "q_abort abort 50 I~n:start/E10~n:start",
+        "q_timer g:15:100 20 I,I~n:start;y;n:gtryrestart:2:500", "q_pending g:15:40 10 I~n:start;y;n:gstop:15:300;n:run:1",
+        "q_deleted g:15:100 10 I~n:start;y;n:delete/I~n:start", "q_never g:15:100 0 I~/F,I~n:start", "q_three g:15:200 30 I~n:start/I~n:start/I~n:start",
+        "q_f4 g:15:50 100 I,E1000,I~n:start;y;n:gtryrestart:15:20", "q_grace0 g:9:0 5 I~n:start", "q_abort_timer abort 21 I,I~n:start;y;n:gtryrestart:2:500",
+    ]
+    out = list(fixed)
+    def beh():
+        k = r.random()
+        return f"E{r.choice([0, 5, 20, 100, 400])}" if k < 0.25 else f"S{r.choice([0, 5, 30, 100, 250])}" if k < 0.5 else "I" if k < 0.9 else "F"
+    def op():
+        k = r.choice(["start", "start", "start", "stop", "gstop", "restart", "grestart", "tryrestart", "gtryrestart", "signal", "towait", "delete", "deletenow", "run"])
+        g = r.choice([1, 2, 9, 15, 15]); ms = r.choice([0, 10, 50, 200, 500])
+        if k in ("gstop", "grestart", "gtryrestart"): return f"n:{k}:{g}:{ms}"
+        if k == "signal": return f"n:signal:{g}"
+        if k == "run": return f"n:run:{r.randrange(50)}"
+        return "n:" + k
+    for i in range(n):
+        jobs = []
+        for _ in range(r.choice([1, 1, 2, 2, 3, 4])):
+            ops = []
+            for _ in range(r.choice([0, 1, 1, 2, 3])):
+                ops.append(op())
+                if r.random() < 0.4: ops.append("y")
+            jobs.append(",".join(beh() for _ in range(r.randint(1, 3))) + "~" + ";".join(ops))
+        manner = "abort" if r.random() < 0.25 else f"g:{r.choice([15, 2, 9, 10])}:{r.choice([0, 40, 100, 300])}"
+        out.append(f"q{seed}_{i} {manner} {r.choice([0, 1, 10, 20, 21, 50, 51, 100, 300])} {'/'.join(jobs)}")
+    return out
+
+def c08_streams(ctx):
+    n = 12000 if ctx["thorough"] else 1500
+    s = core.StreamResult("quit-sim")
+    d = core.WORK / "C08" / "quit-sim"; d.mkdir(parents=True, exist_ok=True)
+    cases = quit_cases(ctx["seed"], n)
+    (d / "cases.txt").write_text("\n".join(cases) + "\n")
+    k = 12
+    chunks = [cases[i::k] for i in range(k)]
+    def run_chunk(ch):
+        p = subprocess.run([str(core.TARGET / "wxquit")], input="\n".join(ch) + "\n", capture_output=True, text=True, timeout=3000)
+        return p.returncode, p.stdout.splitlines(), p.stderr[-500:]
+    with ThreadPoolExecutor(k) as ex: res = list(ex.map(run_chunk, chunks))
+    impl = {}
+    for ch, (rc, lines, err) in zip(chunks, res):
+        if rc != 0 or len(lines) != len(ch): s.error = f"wxquit failed rc={rc} ({len(lines)}/{len(ch)}): {err}"; return [s]
+        for c, l in zip(ch, lines): impl[c] = l
+    (d / "impl.txt").write_text("\n".join(impl[c] for c in cases) + "\n")
+    # the model: every job is one run of the job-task model — its own script, then at the quit instant the controls the worker sends
+    # (stop_with_signal then delete: GracefulStop, then Stop + Delete, all normal priority), or nothing more for an abort
+    jl = []
+    for c in cases:
+        cid, manner, adv, jobs = c.split(" ")
+        for ji, j in enumerate(jobs.split("/")):
+            behs, ops = j.split("~")
+            ops = [o for o in ops.split(";") if o]
+            tail = [f"a:{adv}"] + ([] if manner == "abort" else [f"n:gstop:{manner.split(':')[1]}:{manner.split(':')[2]}", "n:delete", "a:3000"])
+            jl.append(f"{cid}.{ji} {behs} {';'.join(ops + tail)}")
+    (d / "jobs.txt").write_text("\n".join(jl) + "\n")
+    ok, err = core.run_driver(["job", "all"], d / "jobs.txt", d / "model.txt")
+    if not ok: s.error = "wxdriver job failed: " + err[-600:]; return [s]
+    model = dict(l.split(" ", 1) for l in core.read_lines(d / "model.txt"))
+    s.evaluations = len(cases)
+    for i, c in enumerate(cases):
+        cid, manner, adv, jobs = c.split(" "); adv = int(adv)
+        im = impl[c].split(" ", 1)[1]
+        m = re.match(r"main=(\S+)@(\d+) dead=(\S+) ?(.*)$", im)
+        if not m: s.disagreements.append((i, c, im, "unparsable")); continue
+        mainres, took, traces = m.group(1), int(m.group(2)), m.group(4).split(" // ")
+        njobs = len(jobs.split("/"))
+        while len(traces) < njobs: traces.append("")
+        exp_end = 0; bad = None; alive = []; bound = 0
+        for ji in range(njobs):
+            alts = model[f"{cid}.{ji}"].split(" ## ")
+            got = traces[ji].strip()
+            cands = []
+            for a in alts:
+                ev = [e for e in a.split("|") if e and not e.startswith("unres:")]
+                ended = [int(e.split(":")[0]) for e in ev if e.endswith(":ended")]
+                body = [e for e in ev if not e.endswith(":ended")]
+                if manner == "abort":
+                    live = set()
+                    for e in body:
+                        p = e.split(":")
+                        if p[1] == "spawn": live.add(p[2])
+                        elif p[1] == "reaped": live.discard(p[2])
+                    body = body + [f"{adv}:dropped:{x}" for x in sorted(live)]
+                cands.append(("|".join(body), max(ended) if ended else None))
+            hit = [cnd for cnd in cands if cnd[0] == got]
+            if not hit: bad = f"job {ji}: implementation `{got}` not among the model's traces {[x[0] for x in cands[:3]]}"; break
+            if manner != "abort": exp_end = max(exp_end, max((h[1] if h[1] is not None else adv) for h in hit))
+            # C08: nothing started by a job survives
+            live = set()
+            for e in got.split("|"):
+                p = e.split(":")
+                if len(p) > 2 and p[1] == "spawn": live.add(p[2])
+                elif len(p) > 2 and p[1] in ("reaped", "dropped"): live.discard(p[2])
+            alive += [f"job{ji}:{x}" for x in live]
+        exp_took = 0 if manner == "abort" else max(0, exp_end - adv)
+        if bad is None and (mainres != "ok" or took != exp_took): bad = f"main finished {mainres} {took} ms after the quit, the model says ok after {exp_took} ms"
+        if bad: s.disagreements.append((i, c, im, bad))
+        # oracle: the property's own bound — abort: at once; graceful: remaining armed grace periods + the quit's own (scripts arm at most one timer per job before the quit)
+        if mainres != "ok": s.oracle_failures.append((i, c, im, f"main task did not finish cleanly after the quit: {mainres}"))
+        if alive: s.oracle_failures.append((i, c, im, f"processes left behind after shutdown: {alive}"))
+        if manner == "abort" and took > 0: s.oracle_failures.append((i, c, im, f"abort quit took {took} ms of virtual time"))
+        if manner != "abort":
+            g = int(manner.split(":")[2])
+            pend = 0
+            for j in jobs.split("/"):
+                graces = [int(o.split(":")[3]) for o in j.split("~")[1].split(";") if o.split(":")[1:2] and o.split(":")[1] in ("gstop", "grestart", "gtryrestart")]
+                pend = max(pend, sum(graces))
+            if took > pend + g: s.oracle_failures.append((i, c, im, f"graceful quit took {took} ms, more than the grace periods in effect ({pend} ms pending + {g} ms of the quit)"))
+        s.bump("abort" if manner == "abort" else "graceful"); s.bump(f"jobs={njobs}")
+        if "gtryrestart" in c or "gstop" in c or "grestart" in c: s.bump("armed-or-queued graceful control")
+        if took > 0: s.nontrivial.add(hashlib.md5((c.split(" ", 1)[1] + im).encode()).digest()[:8])
+        if i % max(1, len(cases) // 3) == 0 and len(s.samples) < 3: s.samples.append({"case": c, "impl": im[:400]})
+    s.note = ("a real Watchexec instance (with_config, main()) on a paused current-thread runtime; its action handler creates 1-4 jobs (simulated children through the public spawn "
+              "hook), the script puts them into states (never started, running, finished, failed spawn, armed graceful-stop / restart timers, queued controls, already deleted, handle "
+              "clones kept or dropped), then a second action quits gracefully (signal, grace) or aborts; per job the child call log must be one of the job model's traces for "
+              "'script; GracefulStop; Stop; Delete' (abort: script, then every live child's handle dropped), and main must finish exactly when the slowest job's task ends")
+    return [s]
+
+def c08_real(ctx):
+    s = core.StreamResult("quit-real")
+    reps = 3 if ctx["thorough"] else 1
+    for rep in range(reps):
+        p = subprocess.run([str(core.TARGET / "wxquitreal")], capture_output=True, text=True, timeout=600)
+        if p.returncode != 0: s.error = f"wxquitreal failed rc={p.returncode}: {p.stderr[-500:]}"; return s
+        for i, line in enumerate(p.stdout.splitlines()):
+            f = line.split(" "); name = f[0]; kv = dict(x.split("=", 1) for x in f[1:])
+            s.evaluations += 1; s.nontrivial.add(name.encode()); s.bump("manner-" + name.split("-")[0]); s.bump("grouped" if "grouped" in name else "ungrouped")
+            if len(s.samples) < 3: s.samples.append({"scenario": line})
+            if kv["main"] != "ok": s.oracle_failures.append((i, name, line, f"scenario {name}: the main task did not finish within 6 s of the quit"))
+            elif int(kv["took"]) > int(kv["grace"]) + 400: s.oracle_failures.append((i, name, line, f"scenario {name}: shutdown took {kv['took']} ms, grace period {kv['grace']} ms (+400 ms margin)"))
+            if kv["alive"]: s.oracle_failures.append((i, name, line, f"scenario {name}: process(es) {kv['alive']} of the job's process group still alive 300 ms after the main task returned"))
+    s.note = ("real sh commands under a real Watchexec instance (real time, multi-thread runtime): exit on TERM, ignore TERM, grouped commands whose leader or another group member ignores TERM, "
+              "two jobs at once; graceful quit (500 ms grace) and abort; liveness of every recorded pid via /proc after main returned. No model comparison: oracle only (validation of the OS-level part)")
+    return s
+
+PLANS["C08"] = dict(
+    modules=["Wx.Job.C08", "Wx.Job.C08b", "Wx.Job.C06"],
+    theorems=["Jm.c08_delete_after_stop", "Jm.c08_delete_idle", "Jm.c08_same_script_fixed", "Jm.c08_fails_today", "Jm.timer_fires", "Jm.expiry_kills", "Jm.graceful_stop_step", "Jm.held_back", "Jm.c04"],
+    bins=[("lib", ["wxquit", "wxquitreal"])],
+    streams=lambda ctx: c08_streams(ctx) + [c08_real(ctx)],
+    sources=["crates/lib/src/action/worker.rs", "crates/lib/src/watchexec.rs", "crates/lib/src/late_join_set.rs", "crates/supervisor/src/job/task.rs"],
+    rule="a case is one quit scenario (manner, instant, 1-4 jobs with behaviours and pre-quit controls); non-trivial = the shutdown takes virtual time; distinct by (scenario, observation)",
+    assumptions=["the worker's quit branch (one task per job: stop_with_signal, delete().await; join; join job tasks) is composed from per-job runs of the job model by the check driver, not in Lean",
+                 "process-wrap KillOnDrop kills a child whose handle is dropped (abort); real process groups are exercised by the quit-real stream only"],
+    partial="the time bound is not a Lean theorem: it follows informally from graceful_stop_step + timer_fires + expiry_kills + c08_delete_after_stop and is checked as an oracle on every scenario; process-group members surviving a graceful quit is a recorded known finding (F15)",
+)
